@@ -427,6 +427,10 @@ def probe_histories():
         for v in ([120, 10], [120, 13], [13, 10], [10], [120, 13, 10, 13, 10]):
             out.append([ev("set", v=v, nr=nr), ev("get"), ev("gets"), ev("get_many", k="", keys=["a", "b"]), ev("append", v=[10], nr=nr),
                         ev("get"), ev("gat", exp=0), ev("gats", exp=0)])
+        # a key whose own text begins with the configured prefix (half of the replays run with the prefix "pfx:") is another key
+        out.append([ev("set", k="a", v=V1, nr=nr), ev("set", k="pfx:a", v=VX, nr=nr), ev("get", k="a"), ev("get", k="pfx:a"),
+                    ev("get_many", k="", keys=["a", "pfx:a"]), ev("incr", k="a", delta=3), ev("delete", k="a", nr=nr),
+                    ev("get", k="pfx:a"), ev("gets", k="a"), ev("add", k="a", v=V1, nr=nr), ev("get_many", k="", keys=["pfx:a", "a"])])
         out.append([ev("get_many", k="", keys=[]), ev("gets_many", k="", keys=[]), ev("delete_many", k="", keys=[], nr=nr),
                     ev("set_many", k="", items=[], nr=nr), ev("set", v=V1, nr=nr), ev("get_many", k="", keys=[]), ev("get")])
     return out
